@@ -30,13 +30,26 @@
 (*   Agree     - check_agreements_of_displacements: accepted only if the    *)
 (*               reported positions are the dataset's positions atom by     *)
 (*               atom; otherwise the run is refused                         *)
+(* Modes of the displaced phase (chosen in Displace):                       *)
+(*   dtype 1 - one atom displaced (type-1 dataset); dtype 2 - every atom    *)
+(*             displaced (random displacements, type-2 dataset)             *)
+(*   fz      - force_sets_zero_mode: the output of the PERFECT supercell    *)
+(*             (residual forces) is listed first and subtracted             *)
+(*   sym     - WIEN2k case.scf of a symmetry-reduced struct file: only one  *)
+(*             atom per orbit of the displaced cell's space group is listed *)
+(*             (with its position); forces of the others follow by symmetry *)
+(* Conversion (convert_crystal_structure, phonopy-calc-convert):            *)
+(*   ChooseConvert - pick (calc_in, calc_out, cell); the input file is in   *)
+(*               calc_in's format, Read(calc_in) then Order/Write(calc_out) *)
+(*               and Read(calc_out): a composition of the steps above       *)
 EXTENDS Naturals, Integers, Sequences, FiniteSets, TLC
 
 CONSTANTS
   Calcs,      \* set of calculator names explored
   MaxLen,     \* cells have 1..MaxLen atoms
   NSpecies,   \* species 1..NSpecies
-  WithMoments \* BOOLEAN: also explore cells carrying magnetic moments
+  WithMoments, \* BOOLEAN: also explore cells carrying magnetic moments
+  Tasks       \* subset of {"pipeline", "convert"} explored by the model
 
 AllCalcs == {"abacus", "abinit", "aims", "castep", "cp2k", "crystal", "dftbp", "elk",
              "fleur", "lammps", "pwmat", "qe", "siesta", "turbomole", "vasp", "wien2k"}
@@ -55,11 +68,31 @@ Trait ==
      [groups |-> c \in {"vasp", "elk", "fleur", "abacus"},
       frame  |-> IF c \in {"lammps", "wien2k"} THEN "standard" ELSE "asis",
       magmom |-> c \in {"abacus", "aims", "castep", "crystal"},
-      points |-> c = "vasp"]]
+      \* write_supercells_with_displacements also writes a MAGMOM file in FILE order
+      magfile |-> c \in {"vasp", "qe"},
+      \* non-collinear moments (three components per atom)
+      ncl    |-> c \in {"abacus", "vasp", "qe"},
+      points |-> c = "vasp",
+      \* write_crystal_structure needs the optional_structure_info of a file of this
+      \* format, which convert_crystal_structure does not have
+      needsinfo |-> c \in {"qe", "wien2k", "elk", "siesta", "cp2k", "crystal", "fleur", "abacus"}]]
 
-VARIABLES pc, calc, cell, phase, order, file, back, outp, result
+(* are moments carried through this route?  "api": write_crystal_structure,   *)
+(* "sc": write_supercells_with_displacements                                  *)
+MomentsCarried(c, route, ncl) ==
+  /\ Trait[c].magmom \/ (route = "sc" /\ Trait[c].magfile)
+  /\ ncl => Trait[c].ncl
 
-vars == <<pc, calc, cell, phase, order, file, back, outp, result>>
+VARIABLES pc, calc, cell, phase, order, file, back, outp, result,
+          mode,     \* [dtype, fz, sym] of the displaced phase
+          cell0,    \* the original cell (perfect supercell / cell to be converted)
+          order0,   \* the writer's order for the perfect supercell
+          resid,    \* output of the perfect supercell (fz)
+          orbit,    \* sym: orbit number of every atom of the displaced cell
+          calc2     \* conversion: the output interface ("" otherwise)
+
+vars == <<pc, calc, cell, phase, order, file, back, outp, result, mode, cell0, order0, resid, orbit, calc2>>
+aux == <<mode, cell0, order0, resid, orbit, calc2>>
 
 -----------------------------------------------------------------------------
 (* helpers *)
@@ -107,26 +140,38 @@ Identity(n) == [i \in 1..n |-> i]
 
 -----------------------------------------------------------------------------
 NoFile == [label |-> <<>>, pos |-> <<>>, mom |-> <<>>]
+NoMode == [dtype |-> 1, fz |-> FALSE, sym |-> FALSE]
 
 Init ==
   /\ pc = "choose" /\ calc = "vasp" /\ cell = <<>> /\ phase = "perfect"
   /\ order = <<>> /\ file = NoFile /\ back = <<>> /\ outp = <<>>
   /\ result = [status |-> "none"]
+  /\ mode = NoMode /\ cell0 = <<>> /\ order0 = <<>> /\ resid = <<>> /\ orbit = <<>> /\ calc2 = ""
 
 Choose ==
-  /\ pc = "choose"
+  /\ pc = "choose" /\ "pipeline" \in Tasks
   /\ \E c \in Calcs, s \in SpeciesSeqs, wm \in (IF WithMoments THEN BOOLEAN ELSE {FALSE}) :
        /\ (wm => Trait[c].magmom)
        /\ calc' = c
        /\ cell' = MakeCell(s, wm)
   /\ pc' = "order"
-  /\ UNCHANGED <<phase, order, file, back, outp, result>>
+  /\ UNCHANGED <<phase, order, file, back, outp, result, aux>>
+
+(* convert_crystal_structure(file_in, calc_in, file_out, calc_out) *)
+ChooseConvert ==
+  /\ pc = "choose" /\ "convert" \in Tasks
+  /\ \E a \in Calcs, b \in Calcs, s \in SpeciesSeqs :
+       /\ calc' = a /\ calc2' = b
+       /\ cell' = MakeCell(s, FALSE) /\ cell0' = MakeCell(s, FALSE)
+  /\ phase' = "convert-in"
+  /\ pc' = "order"
+  /\ UNCHANGED <<order, file, back, outp, result, mode, order0, resid, orbit>>
 
 Order ==
   /\ pc = "order"
   /\ order' = IF Trait[calc].groups THEN GroupPerm(SpeciesOf(cell)) ELSE Identity(Len(cell))
   /\ pc' = "write"
-  /\ UNCHANGED <<calc, cell, phase, file, back, outp, result>>
+  /\ UNCHANGED <<calc, cell, phase, file, back, outp, result, aux>>
 
 (* labels, positions and moments all go through the same order *)
 Write ==
@@ -135,43 +180,89 @@ Write ==
               pos   |-> [k \in 1..Len(cell) |-> cell[order[k]].id],
               mom   |-> [k \in 1..Len(cell) |-> cell[order[k]].mom]]
   /\ pc' = "read"
-  /\ UNCHANGED <<calc, cell, phase, order, back, outp, result>>
+  /\ UNCHANGED <<calc, cell, phase, order, back, outp, result, aux>>
 
 Read ==
   /\ pc = "read"
   /\ back' = [k \in 1..Len(file.pos) |-> [sp |-> file.label[k], id |-> file.pos[k], mom |-> file.mom[k]]]
-  /\ pc' = IF phase = "perfect" THEN "displace" ELSE "collect"
-  /\ UNCHANGED <<calc, cell, phase, order, file, outp, result>>
+  /\ pc' = CASE phase = "perfect" -> "displace"
+            [] phase = "convert-in" -> "convert"
+            [] phase = "convert-out" -> "done"
+            [] OTHER -> "collect"
+  /\ UNCHANGED <<calc, cell, phase, order, file, outp, result, aux>>
 
-(* a displaced supercell: atom d moves to a fresh position id *)
+(* convert_crystal_structure hands the cell it read to the writer of calc_out  *)
+(* without optional_structure_info: formats that need it cannot be written    *)
+Convert ==
+  /\ pc = "convert"
+  /\ IF Trait[calc2].needsinfo
+       THEN /\ result' = [status |-> "error"] /\ pc' = "done"
+            /\ UNCHANGED <<calc, cell, phase>>
+       ELSE /\ calc' = calc2 /\ cell' = back /\ phase' = "convert-out" /\ pc' = "order"
+            /\ result' = [status |-> "converted"]
+  /\ UNCHANGED <<order, file, back, outp, aux>>
+
+(* a displaced supercell: a displaced atom moves to a fresh position id.      *)
+(* dtype 1: one atom; dtype 2: all atoms.                                     *)
+AllOrbits(c, moved) ==      \* partitions into same-species orbits in which every moved atom is alone
+  {f \in [1..Len(c) -> 1..Len(c)] :
+     /\ \A i \in 1..Len(c) : f[i] <= i /\ f[f[i]] = f[i]              \* orbit = its smallest member
+     /\ \A i \in 1..Len(c) : c[i].sp = c[f[i]].sp
+     /\ \A i \in moved : f[i] = i /\ \A j \in 1..Len(c) : f[j] = i => j = i}
 Displace ==
   /\ pc = "displace"
-  /\ \E d \in 1..Len(cell) :
-       cell' = [cell EXCEPT ![d].id = Len(cell) + d]
+  /\ \E dt \in {1, 2}, z \in BOOLEAN, sy \in BOOLEAN, d \in 1..Len(cell) :
+       /\ (dt = 2 => d = 1)                      \* d is irrelevant for type 2
+       /\ (sy => calc = "wien2k" /\ ~z /\ Len(cell) <= 4)
+       /\ mode' = [dtype |-> dt, fz |-> z, sym |-> sy]
+       /\ cell' = IF dt = 1 THEN [cell EXCEPT ![d].id = Len(cell) + d]
+                            ELSE [k \in 1..Len(cell) |-> [cell[k] EXCEPT !.id = Len(cell) + k]]
+       /\ orbit' \in (IF sy THEN AllOrbits(cell, IF dt = 1 THEN {d} ELSE 1..Len(cell)) ELSE {Identity(Len(cell))})
+  /\ cell0' = cell /\ order0' = order
   /\ phase' = "displaced"
   /\ pc' = "order"
-  /\ UNCHANGED <<calc, order, file, back, outp, result>>
+  /\ UNCHANGED <<calc, order, file, back, outp, result, resid, calc2>>
 
-(* the force on an atom is a function of which atom it is: token = its id *)
+(* the force on an atom is a function of which atom it is: token = its id;    *)
+(* the residual force (perfect supercell) of dataset atom a: Res(a)           *)
 Force(id) == id
+Res(a) == 100 * a
 
+(* the calculator lists the atoms in FILE order.  Displaced run: force +       *)
+(* residual; perfect run (fz): residual.  sym: only the last member of every   *)
+(* orbit is listed.                                                            *)
+Listed(k) == ~mode.sym \/ \A j \in 1..Len(cell) : orbit[j] = orbit[order[k]] => j <= order[k]
 Collect ==
   /\ pc = "collect"
-  /\ outp' = [k \in 1..Len(back) |-> [point |-> back[k].id, force |-> Force(back[k].id)]]
+  /\ outp' = [k \in {k \in 1..Len(back) : Listed(k)} |->
+                [point |-> back[k].id,
+                 force |-> Force(back[k].id) + (IF mode.fz THEN Res(order[k]) ELSE 0)]]
+  /\ resid' = IF mode.fz
+                THEN [k \in 1..Len(cell0) |-> [point |-> cell0[order0[k]].id, force |-> Res(order0[k])]]
+                ELSE <<>>
   /\ pc' = "agree"
-  /\ UNCHANGED <<calc, cell, phase, order, file, back, result>>
+  /\ UNCHANGED <<calc, cell, phase, order, file, back, result, mode, cell0, order0, orbit, calc2>>
 
 Agree ==
   /\ pc = "agree"
   /\ LET n == Len(cell)
          agrees == \A k \in 1..n : outp[k].point = cell[k].id
-     IN result' = IF Trait[calc].points /\ ~agrees
-                    THEN [status |-> "refused"]
-                    ELSE [status |-> "built", forces |-> [k \in 1..n |-> outp[k].force]]
+         agrees0 == mode.fz => \A k \in 1..n : resid[k].point = cell0[k].id
+     IN result' =
+          IF mode.sym
+            THEN \* WIEN2k: every listed atom is found by its position, its force is carried
+                 \* to the other members of its orbit by the symmetry operations
+                 IF \A a \in 1..n : \E k \in DOMAIN outp : orbit[order[k]] = orbit[a]
+                   THEN [status |-> "built", forces |-> [a \in 1..n |-> Force(cell[a].id)]]
+                   ELSE [status |-> "error"]
+          ELSE IF Trait[calc].points /\ ~(agrees /\ agrees0)
+            THEN [status |-> "refused"]
+            ELSE [status |-> "built",
+                  forces |-> [k \in 1..n |-> outp[k].force - (IF mode.fz THEN resid[k].force ELSE 0)]]
   /\ pc' = "done"
-  /\ UNCHANGED <<calc, cell, phase, order, file, back, outp>>
+  /\ UNCHANGED <<calc, cell, phase, order, file, back, outp, aux>>
 
-Next == Choose \/ Order \/ Write \/ Read \/ Displace \/ Collect \/ Agree
+Next == Choose \/ ChooseConvert \/ Order \/ Write \/ Read \/ Convert \/ Displace \/ Collect \/ Agree
 
 Spec == Init /\ [][Next]_vars
 
@@ -220,9 +311,10 @@ ReqForcesPairedSameOrder(c, b, r) == (IsIdentityOrder(c, b) /\ r.status = "built
 -----------------------------------------------------------------------------
 (* Invariants of the step machine *)
 
-TypeOK == pc \in {"choose", "order", "write", "read", "displace", "collect", "agree", "done"}
+TypeOK == pc \in {"choose", "order", "write", "read", "displace", "collect", "agree", "done", "convert"}
 
-AfterRead == pc \in {"displace", "collect", "agree", "done"}
+Pipeline == phase \in {"perfect", "displaced"}
+AfterRead == Pipeline /\ pc \in {"displace", "collect", "agree", "done"}
 InvOrderIsPermutation == pc \in {"write", "read"} => IsPerm(order, Len(cell))
 InvSameCrystal == AfterRead => ReqSameCrystal(cell, back)
 InvSameMoments == AfterRead => ReqSameMoments(cell, back)
@@ -231,14 +323,22 @@ InvGroupingIsTrait ==
   AfterRead => IF Trait[calc].groups THEN IsStableGrouping(cell, back) ELSE IsIdentityOrder(cell, back)
 (* grouping twice changes nothing: reading a written file and writing it again gives the same file *)
 InvIdempotent == (AfterRead /\ Trait[calc].groups) => GroupPerm(SpeciesOf(back)) = Identity(Len(back))
-InvForcesPaired == (pc = "done" /\ Trait[calc].points) => ReqForcesPaired(cell, result)
-InvNotRefused == pc = "done" => ReqNotRefusedWhenSameOrder(cell, back, result)
-InvForcesPairedSameOrder == pc = "done" => ReqForcesPairedSameOrder(cell, back, result)
+PDone == Pipeline /\ pc = "done"
+InvForcesPaired == (PDone /\ Trait[calc].points) => ReqForcesPaired(cell, result)
+InvNotRefused == PDone => ReqNotRefusedWhenSameOrder(cell, back, result)
+InvForcesPairedSameOrder == PDone => ReqForcesPairedSameOrder(cell, back, result)
+(* WIEN2k's symmetric route pairs by position whatever the order *)
+InvSymPaired == (PDone /\ mode.sym) => (result.status = "built" /\ ReqForcesPaired(cell, result))
+(* conversion: whenever the output format can be written at all, the crystal survives the *)
+(* pair, and the only re-ordering is the stable grouping                                   *)
+CDone == ~Pipeline /\ pc = "done"
+InvConvertCrystal == (CDone /\ result.status = "converted") => (ReqSameCrystal(cell0, back) /\ ReqOrder(cell0, back))
+InvConvertible == CDone => (result.status = "converted" <=> ~Trait[calc2].needsinfo)
 (* what the property does NOT promise: a grouping format whose output carries no positions  *)
 (* pairs the forces of an interleaved supercell with the wrong atoms, silently             *)
-Mispaired == pc = "done" /\ result.status = "built" /\ ~ReqForcesPaired(cell, result)
+Mispaired == PDone /\ result.status = "built" /\ ~ReqForcesPaired(cell, result)
 InvMispairedOnlyUnchecked == Mispaired => (Trait[calc].groups /\ ~Trait[calc].points /\ ~IsIdentityOrder(cell, back))
 (* the refusal is exactly the interleaved case *)
 InvRefusedIffReordered ==
-  (pc = "done" /\ Trait[calc].points) => (result.status = "refused" <=> ~IsIdentityOrder(cell, back))
+  (PDone /\ Trait[calc].points) => (result.status = "refused" <=> ~IsIdentityOrder(cell, back))
 =============================================================================
